@@ -76,7 +76,17 @@ def gen_cases(tier, seed):
             d["faults"] = {"p": 1.0, "kinds": [r.choice(["base", "kbi", "sysexit", "exc"])]}
         else:
             d["faults"] = {"p": r.choice([0.1, 0.3, 0.6]), "kinds": ["exc", "base", "kbi", "sysexit", "genexit", "value"]}
+        if r.random() < 0.1:
+            d["display"] = "html"
         out.append(d)
+    for i in range(max(6, n // 150)):
+        # hundreds of failing calls in one run that is allowed to go on, with a bundled display attached (which remembers only so many
+        # exceptions): it ends like any other run
+        s = env.seed_for(seed, ID, tier, "many_failures_display", i)
+        r = random.Random(env.seed_for(s, "descriptor"))
+        out.append({"seed": s, "mode": "acyclic", "n": r.randint(140, 260), "W": r.choice([1, 2, 4, 8]), "sched": r.choice(["default", "random"]), "independent": r.random() < 0.7, "family": "disconnected",
+                    "cfg": {"out": "all"}, "perturb": "none", "delays": "none", "max_errors": r.choice([None, None, 1000]),
+                    "faults": {"p": r.choice([0.9, 1.0]), "kinds": ["exc", "value"]}, "display": "html"})
     return out
 
 
@@ -410,9 +420,21 @@ def run_case(desc):
     if desc["mode"] == "callback_fault":
         return run_callback_fault(desc)
     usable = quiesce.available()
+    progress = None
+    if desc.get("display") == "html":
+        # a bundled display attached (its own lock and update thread take part in every notification)
+        import uberjob.progress as up
+
+        progress = up.Progress(lambda: up.HtmlProgressObserver(lambda b: None, initial_update_delay=0.001, min_update_interval=0.002, max_update_interval=0.02))
+    ir_ = None
+    if desc.get("independent"):
+        ir_ = irmod.IR()
+        cs = [ir_.add("call", fname=f"f{i % 7}") for i in range(desc["n"])]
+        ir_.output = irmod.X("list", [irmod.ref(c.id) for c in cs])
+        ir_.meta["family"] = "independent"
     W = Watch(desc)
     with W:
-        R = plainrun.execute(desc, record_args=False, hang_watch=False)
+        R = plainrun.execute(desc, record_args=False, hang_watch=False, progress=progress, ir=ir_)
     H, ir = R.H, R.ir
     bad = None
     if R.in_flight_at_return:
